@@ -841,3 +841,49 @@ def nested_defaults_entry(base, name="nesteddefaults", langs=None):
 
 
 GROWTH_ENTRIES["nesteddefaults"] = nested_defaults_entry
+
+
+def pets_entry(base, name="pets", langs=None):
+    """An undiscriminated union of THREE struct branches whose discriminator has to be inferred: every branch carries two
+    constant fields, `api` (v1 / v2 / v1: the same value in two NON-adjacent branches, not a discriminator) and `kind`
+    (different everywhere). `api` sorts first, so it has to be rejected whatever order the branches are visited in. A second
+    union has four branches and three candidate fields."""
+    d = os.path.join(base, name)
+    os.makedirs(d)
+    const = lambda v: {"type": "string", "const": v}
+    def branch(**consts):
+        props = {k: const(v) for k, v in consts.items()}
+        props["label"] = {"type": "string"}
+        return {"type": "object", "required": sorted(consts), "properties": props}
+    doc = {"$schema": "http://json-schema.org/draft-07/schema#", "$ref": "#/definitions/Holder", "definitions": {
+        "Holder": {"type": "object", "required": ["pet"], "properties": {"pet": {"$ref": "#/definitions/Pet"}, "vehicle": {"$ref": "#/definitions/Vehicle"}}},
+        "Pet": {"oneOf": [{"$ref": "#/definitions/Cat"}, {"$ref": "#/definitions/Dog"}, {"$ref": "#/definitions/Bird"}]},
+        "Cat": branch(api="v1", kind="cat"), "Dog": branch(api="v2", kind="dog"), "Bird": branch(api="v1", kind="bird"),
+        "Vehicle": {"oneOf": [{"$ref": "#/definitions/Car"}, {"$ref": "#/definitions/Bus"}, {"$ref": "#/definitions/Van"}, {"$ref": "#/definitions/Tram"}]},
+        "Car": branch(axles="2", fuel="petrol", type="car"), "Bus": branch(axles="2", fuel="diesel", type="bus"),
+        "Van": branch(axles="3", fuel="petrol", type="van"), "Tram": branch(axles="2", fuel="none", type="tram")}}
+    _write(os.path.join(d, "alpha.schema.json"), json.dumps(doc, indent=1))
+    inputs = [{"jsonschema": {"path": "%__config_dir%/alpha.schema.json", "package": "alpha"}}]
+    langs = list(langs or LANGS)
+    y = write_pipeline(d, "pipeline", inputs, langs, types=True, builders=True, converters=False, api_reference=False)
+    return {"id": name, "yaml": y, "inspect": True, "outdir": "out", "langs": langs, "pkgs": ["alpha"],
+            "features": {"pkgs": 1}, "flags": {}, "source": "pets"}
+
+
+GROWTH_ENTRIES["pets"] = pets_entry
+
+
+def shareddir_entry(base, name="shareddir", langs=None):
+    """Two languages generated into ONE directory (no %l in output.directory) with the API reference on: both want to write
+    docs/Reference/<pkg>/index.md. cog's answer is an error (codejen.FS.Merge refuses a path that exists); whichever language
+    the run visits first, the outcome has to be the same. (Both runs failing is agreement; one of them producing files is not.)"""
+    d = os.path.join(base, name)
+    os.makedirs(d)
+    inputs = [write_input(d, {"pkg": "alpha", "objects": _shape_objects(1)}, "jsonschema")]
+    langs = list(langs or ["go", "typescript", "python"])
+    y = write_pipeline(d, "pipeline", inputs, langs, types=True, builders=True, converters=False, api_reference=True, directory="out")
+    return {"id": name, "yaml": y, "inspect": True, "outdir": "out", "langs": langs, "pkgs": ["alpha"],
+            "features": {"pkgs": 1}, "flags": {}, "source": "shareddir"}
+
+
+GROWTH_ENTRIES["shareddir"] = shareddir_entry
